@@ -863,8 +863,11 @@ func TestVerifC11(t *testing.T) {
 			run("context-cancelled", in)
 		}
 		// D. stake / prepay: amounts x send results x receipt results
-		amounts := []*string{nil, str(big.NewInt(0)), str(one), str(big.NewInt(1000000000000000000)),
-			str(new(big.Int).Sub(c11Two256, one)), str(c11Two256), str(big.NewInt(-1)), str(c11RandValue(r))}
+		amounts := []*string{nil, str(big.NewInt(0)), str(big.NewInt(1000000000000000000)),
+			str(new(big.Int).Sub(c11Two256, one)), str(big.NewInt(-1)), str(c11RandValue(r))}
+		if e.Tier == "thorough" {
+			amounts = append(amounts, str(one), str(c11Two256), str(c11RandValue(r)))
+		}
 		for _, a := range amounts {
 			for _, s := range c11Sends(r) {
 				for _, w := range c11Waits() {
